@@ -41,7 +41,9 @@ def gen_source(rng, n_funcs):
             params.append(name + (": " + anno if anno else "") + ((" = " if anno else "=") + default if default else ""))
             meta.append({"name": name, "anno": anno, "default": default})
         ret_anno = rng.choice(ANNOS + ["None"]) if rng.random() < 0.5 else None
-        sig = ", ".join((["self"] if method else []) + params)
+        # the receiver is sometimes annotated in the source too (`self: 'C0'`)
+        recv_anno = rng.choice([None, None, "'C%d'" % i, "object"]) if method else None
+        sig = ", ".join((["self" + (": " + recv_anno if recv_anno else "")] if method else []) + params)
         body = "        return None\n" if method else "    return None\n"
         head = "def f%d(%s)%s:\n" % (i, sig, " -> " + ret_anno if ret_anno else "")
         if method:
@@ -163,6 +165,11 @@ def run(pid, tier, seed):
                             # the property, per strategy
                             if is_self and tr is not None and got not in ("none", ("src", "0")):
                                 chk.fail("receiver", dict(case, param=n, got=got))
+                            if is_self and annotated and sname == "omit" and got != "none":
+                                # omit: no annotated position carries an annotation in the stub - the receiver included
+                                chk.fail("omit", dict(case, param=n, annotated=True, got=sexp.dumps(got), expected="none"))
+                            if is_self and annotated and sname == "replicate" and got != ("src", "0"):
+                                chk.fail("replicate", dict(case, param=n, annotated=True, got=sexp.dumps(got), expected="(src 0)"))
                             exp = None
                             if not is_self:
                                 if sname == "replicate":
